@@ -99,6 +99,8 @@ void Kernel::reset(uint64_t seed) {
     if (in.open) __real_close(in.fd);
   installed.clear();
   installed_open.clear();
+  installed_closed.clear();
+  passed_fd_double_closes = 0;
   next_install_tag = 1;
   for (Process *p : procs) delete p;
   procs.clear();
@@ -140,6 +142,7 @@ int Kernel::alloc_fd() {
   int fd = __real_fcntl(base, F_DUPFD_CLOEXEC, FD_BASE);
   if (fd < 0) { perror("simk: F_DUPFD"); abort(); }
   __real_close(base);
+  installed_closed.erase(fd);   // the number is in use again: a close of it is no longer a double close
   return fd;
 }
 
@@ -390,6 +393,7 @@ static ssize_t stream_read(Kernel::FdEntry *f, struct iovec *iov, int iovcnt, vo
         Kernel::Installed in;
         in.fd = nfd; in.tag = K->next_install_tag++;
         K->installed_open[nfd] = K->installed.size();
+        K->installed_closed.erase(nfd);
         K->installed.push_back(in);
       }
       *controllen = CMSG_SPACE(nfds * sizeof(int)) <= space ? CMSG_SPACE(nfds * sizeof(int)) : cm->cmsg_len;
@@ -495,6 +499,10 @@ int __wrap_close(int fd) {
         K->installed[it->second].closes++;
         K->installed[it->second].open = false;
         K->installed_open.erase(it);
+        K->installed_closed.insert(fd);
+      } else if (K->installed_closed.count(fd)) {
+        K->passed_fd_double_closes++;
+        if (K->trace) K->trace("double-close", fd, 0);
       }
     }
     return __real_close(fd);
@@ -551,6 +559,7 @@ int __wrap_fcntl(int fd, int cmd, ...) {
   if (K && (cmd == F_DUPFD || cmd == F_DUPFD_CLOEXEC)) {
     // dup of an installed (passed) descriptor: SUT now owns one more number; track it too
     int nfd = __real_fcntl(fd, cmd, arg < 1000 ? 1000 : arg);
+    if (nfd >= 0) K->installed_closed.erase(nfd);
     if (nfd >= 0 && K->installed_open.count(fd)) {
       Kernel::Installed in;
       in.fd = nfd; in.tag = K->next_install_tag++;
